@@ -36,6 +36,8 @@ class StubLaw:
 
     def __init__(self, a, b, c):
         self.a, self.b, self.c = a, b, c
+        # the attribute names of the real laws (all that determines the stub is in them)
+        self.E, self.K, self.n, self.K_p = a, b, c, None
 
     def stress(self, load, *, rtol=None, tol=None):
         return self.a * load + self.b * (load * load * load)
@@ -366,6 +368,149 @@ def gen_multi(rng, n=None):
     return {"kind": "multi", "law": gen_law(rng, n), "maxLs": maxLs, "node_ids": ids, "n": n, "queries": qs}
 
 
+
+# ------------------------------------------------------------------ sequences on one object / argument integrity
+SEQ_MODIFIED = "binned-argument-modified"
+
+
+def gen_seq(rng, table):
+    """A SEQUENCE of look-ups on ONE Binned object (oracle only): every argument object is used for one or more calls in a
+    row (a refused look-up, then the same object again with the offending entry corrected in place, then another
+    function), primary / secondary look-ups interleaved, mixed signs, zeros; afterwards a second object that differs in
+    K_p only (a second law object, or the K_p setter on the same law object)."""
+    n = rng.choice([2, 3, 7, 20])
+    law = gen_law(rng, n)
+    M0 = gen_max(rng)
+    case = {"kind": "seq", "table": table, "law": law, "n": n}
+    if table == "multi":
+        p = rng.choice([2, 3, 5])
+        maxLs = [M0] + [rng.choice([0.5, 2.0, 1.3, 0.8, rng.uniform(0.05, 20)]) * M0 for _ in range(p - 1)]
+        case.update(maxLs=maxLs, node_ids=rng.sample(range(1, 50), p), maxima_name=rng.choice([None, "my_maxima"]))
+    else:
+        p, maxLs = rng.choice([1, 3, 4]), None
+        case.update(maxL=M0)
+    if "Kp" in law:
+        case.update(kp2=rng.choice([1.5, 2.2, 3.5, rng.uniform(1.3, 6)]), kp_mode=rng.choice(["two_laws", "setter"]))
+        if case["kp2"] == law["Kp"]:
+            case["kp2"] = law["Kp"] + 0.7
+    tops = maxLs if table == "multi" else [M0] * p          # range of entry j on the primary tables
+
+    def inside(j, fn, lo=0.0):
+        f = 1.0 if fn in ("stress", "strain") else 2.0
+        return rng.uniform(lo, 1.0) * f * tops[j] * rng.choice([1, -1])
+
+    def arg_for(fn, out=None, out_kind="primary"):
+        xs = [inside(j, fn) for j in range(p)]
+        if p >= 2:
+            xs[rng.randrange(p)] = rng.choice([0.0, -0.0])
+            js = [j for j in range(p) if xs[j] != 0]
+            xs[rng.choice(js)] = -abs(inside(rng.choice(js), fn, 0.05))         # at least one negative load
+            xs = [x if x != 0 or j != out else 1.0 for j, x in enumerate(xs)]
+        if out is not None:
+            f = 1.0 if out_kind == "primary" else 2.0
+            xs[out] = f * tops[out] * rng.choice([1 + 1e-9, rng.uniform(1.0001, 1.9)]) * rng.choice([1, -1])
+        return xs
+
+    def container():
+        if table == "multi":
+            return "series", multi_index(rng, case["node_ids"])
+        if p == 1:
+            return rng.choice(["float", "np_float", "array0d", "series", "array", "list"]), None
+        c = rng.choice(["series", "series", "array", "list"])
+        return c, (gen_index(rng, p, SINGLE_INDEX_KINDS) if c == "series" else None)
+
+    steps = []
+    for _ in range(rng.choice([3, 4, 5])):
+        kind = rng.choice(["plain", "refused_fix", "refused_fix", "refused_other_fn", "refused_fresh"])
+        c, idx = container()
+        if kind == "plain":
+            fns = rng.sample(FNS, rng.choice([2, 3, 4]))
+            xs = arg_for("stress")
+            calls = [{"fn": f} for f in fns]
+        elif kind == "refused_fix":
+            fn = rng.choice(FNS)
+            j = rng.randrange(p)
+            xs = arg_for(fn, j, "primary" if fn in ("stress", "strain") else "secondary")
+            fixv = inside(j, fn, 0.3)
+            calls = [{"fn": fn}, {"fn": fn, "fix": [[j, fixv]]},
+                     {"fn": rng.choice(["stress2", "strain2"])}, {"fn": FNS[(FNS.index(fn) + 1) % 4] if fn in ("stress2", "strain2") and False else fn}]
+        elif kind == "refused_other_fn":         # above max but inside 2 max: the primary look-up refuses, the secondary answers
+            j = rng.randrange(p)
+            xs = arg_for("stress", j, "primary")
+            calls = [{"fn": rng.choice(["stress", "strain"])}, {"fn": "stress2"}, {"fn": "strain2"},
+                     {"fn": "strain", "fix": [[j, -abs(inside(j, "stress", 0.2))]]}, {"fn": "stress"}]
+        else:
+            fn = rng.choice(FNS)
+            xs = arg_for(fn, rng.randrange(p), "primary" if fn in ("stress", "strain") else "secondary")
+            calls = [{"fn": fn}]
+        if c in ("float", "np_float", "array0d"):
+            calls = [dict(cl, fix=None) if cl.get("fix") else cl for cl in calls]     # immutable argument: a new one per fix
+            calls = [cl for cl in calls if not ("fix" in cl and cl["fix"] is None)] or calls[:1]
+        steps.append({"xs": xs, "container": c, "index": idx, "calls": calls})
+        if kind == "refused_fresh":             # ... followed by fresh data on the same object
+            c2, idx2 = container()
+            steps.append({"xs": arg_for("stress"), "container": c2, "index": idx2, "calls": [{"fn": f} for f in rng.sample(FNS, 2)]})
+    case["steps"] = steps
+    return case
+
+
+def seq_arg(xs, container, index):
+    """a FRESH argument object holding the numbers xs"""
+    xs = [float(x) for x in xs]
+    if container == "series":
+        return make_series(xs, index)
+    if container == "array":
+        return np.array(xs, dtype=float)
+    if container == "list":
+        return list(xs)
+    if container == "np_float":
+        return np.float64(xs[0])
+    if container == "array0d":
+        return np.array(xs[0])
+    return xs[0]
+
+
+def arg_diff(a, fresh):
+    """None when the argument object `a` still holds what a fresh argument with the intended numbers holds - everything a
+    later look-up / a later Binned built from the same object computes with: the VALUES (bit for bit as float64, so a dtype
+    change that alters a value counts), their number and the INDEX (labels, order, level names); else a description.  A
+    changed `.name` of a Series is outside the property (it changes no result) and only counted by the caller."""
+    if isinstance(fresh, pd.Series):
+        if not isinstance(a, pd.Series):
+            return f"type {type(a).__name__} instead of Series"
+        if type(a.index) is not type(fresh.index) or not a.index.equals(fresh.index) or list(a.index.names) != list(fresh.index.names):
+            return f"index {list(a.index)[:6]!r} names {list(a.index.names)} instead of {list(fresh.index)[:6]!r} names {list(fresh.index.names)}"
+        if len(a) != len(fresh) or a.to_numpy(dtype=float).tobytes() != fresh.to_numpy(dtype=float).tobytes():
+            return f"values {a.tolist()!r} instead of {fresh.tolist()!r}"
+        return None
+    if isinstance(fresh, np.ndarray):
+        if not isinstance(a, np.ndarray) or a.shape != fresh.shape or a.astype(float).tobytes() != fresh.astype(float).tobytes():
+            return f"array {np.asarray(a).tolist()!r} instead of {fresh.tolist()!r}"
+        return None
+    if isinstance(fresh, list):
+        if not isinstance(a, list) or len(a) != len(fresh) or any(f2h(x) != f2h(y) for x, y in zip(a, fresh)):
+            return f"list {a!r} instead of {fresh!r}"
+        return None
+    return None if f2h(a) == f2h(fresh) else f"{a!r} instead of {fresh!r}"
+
+
+def seq_objects(case, kp=None, law=None):
+    """(Binned, law, maxima argument) built from FRESH objects; `law` given: reuse that law object (K_p setter mode)"""
+    import pylife.materiallaws.notch_approximation_law as nal
+    if law is None:
+        spec = dict(case["law"], Kp=kp) if kp is not None else case["law"]
+        law = make_law(spec)
+    if case["table"] == "multi":
+        mx = pd.Series([float(v) for v in case["maxLs"]], index=pd.Index(case["node_ids"], name="node_id"), name=case.get("maxima_name"))
+    else:
+        mx = float(case["maxL"])
+    return nal.Binned(law, mx, case["n"]), law, mx
+
+
+def tables_snapshot(b):
+    return {fn: lut_of(b, fn) for fn in FNS}
+
+
 # ------------------------------------------------------------------ the property
 class C07(Prop):
     ID = "C07"
@@ -402,7 +547,9 @@ class C07(Prop):
             "column; ValueError iff some load is above its own range; for all four functions never below the law, monotone, "
             "less than one class off; per-point table = single tables, per-point look-up = single look-ups; a point without a load "
             "(NaN) gets NaN, the other points get the values they get with a load at that point, no exception (4c5d9b2).  Non-trivial = "
-            "every case with at least one successful and one rejected look-up")
+            "every case with at least one successful and one rejected look-up.  Sequence cases (oracle only): several look-ups on one "
+            "object with re-used argument objects (refused look-up, entry corrected in place, other functions, fresh data), "
+            "argument integrity, fresh-object comparison, second object differing in K_p only")
     ASSUMPTIONS = [
         "C07: theorems are over an arbitrary linearly ordered field (exact arithmetic); the IEEE evaluation of the class edges "
         "is not modelled in the theorems - the checks require the real table's edges to be strictly increasing, within 2 ulp "
@@ -430,6 +577,16 @@ class C07(Prop):
         "(FKMNonlinearDetector._proceed_on_secondary_branch) passes load ranges whose index has no node_id level at all, the "
         "doc string asks for a RangeIndex.  A per-point Series whose node_id labels are in another order than the table's is "
         "therefore read in Series order (decision recorded here; the property text does not mention labels)",
+        "C07: sequences / argument integrity (oracle only, case kind `seq`): on one Binned object every argument object (python "
+        "float, numpy scalar, 0-d array, array, list, Series; per-point Series on per-point tables) is used for several calls in "
+        "a row - a refused look-up, the same object with the offending entry corrected in place, other functions - and must "
+        "afterwards hold the intended VALUES (bit for bit as float64) and INDEX (labels, order, level names), whether the call "
+        "returned or raised (class binned-argument-modified); likewise the maxima Series handed to the constructor; results "
+        "must equal the upper-edge rule on the tables as built, a fresh object on fresh data, and the tables must not change "
+        "(binned-sequence-value, binned-object-state-changed); a second object that differs in K_p only (second law object / "
+        "K_p setter on the same law object) must hold the tables of ITS law.  Binned renames the caller's maxima Series to "
+        "'max_abs_load' in place; a changed `.name` changes no result, is outside the property and only counted "
+        "(stats argument_renamed)",
         "C07: the per-point look-up is modelled as REPAIRED by /repo commit 3047e0d (every point in its "
         "own column, own range check).  Before the repair the code took class and range check of the first point for all "
         "points: finding class binned-multi-first-point-class (fixed by 3047e0d), recognised only when the code's answer equals the "
@@ -470,6 +627,9 @@ class C07(Prop):
             yield gen_single(rng, few=not big)
         for _ in range(25 if not big else 200):
             yield gen_multi(rng)
+        for _ in range(7 if not big else 50):       # sequences on one object, argument integrity, two objects differing in K_p
+            yield gen_seq(rng, "multi")
+            yield gen_seq(rng, "single")
 
     # -------------------------------------------------------------- correspondence
     def _xs(self, q):
@@ -482,6 +642,8 @@ class C07(Prop):
         return make_series(self._xs(q), q.get("index"))
 
     def model_lines(self, case):
+        if case["kind"] == "seq":
+            return []               # oracle only
         bl = self._binned(case)
         if isinstance(bl, Exception):
             return []
@@ -515,6 +677,8 @@ class C07(Prop):
         return lines
 
     def impl_lines(self, case):
+        if case["kind"] == "seq":
+            return []
         bl = self._binned(case)
         if isinstance(bl, Exception):
             self._count("construction_raises_" + type(bl).__name__)
@@ -610,6 +774,8 @@ class C07(Prop):
                 return self._oracle(case)
 
     def _oracle(self, case):
+        if case["kind"] == "seq":
+            return self._oracle_seq(case)
         n = case["n"]
         npts = 1 if case["kind"] == "single" else len(case["maxLs"])
         maxima = [case["maxL"]] if case["kind"] == "single" else case["maxLs"]
@@ -680,6 +846,122 @@ class C07(Prop):
                 self._count("oracle_first_point_mechanism_lookups")
             if d and not self.known(d[1], d[0]):
                 return d
+        return None
+
+    # -------------------------------------------------------------- sequences on one object, argument integrity, K_p
+    def _oracle_seq(self, case):
+        multi = case["table"] == "multi"
+        maxima = case["maxLs"] if multi else [case["maxL"]]
+        npts = len(maxima)
+        n = case["n"]
+        try:
+            b, law, mx = seq_objects(case)
+        except Exception as e:      # noqa: BLE001   (construction failures are judged in the single / multi cases)
+            self._count("seq_construction_raises_" + type(e).__name__)
+            return None
+        self._count(f"seq_cases_{case['table']}_{case['law']['type']}")
+        tag = f"Binned(<{case['law']['type']}>, maxima {maxima!r}, n={n})"
+        # ---- the maxima handed to the constructor are the caller's: unchanged
+        if multi:
+            fresh_mx = pd.Series([float(v) for v in maxima], index=pd.Index(case["node_ids"], name="node_id"), name=case.get("maxima_name"))
+            d = arg_diff(mx, fresh_mx)
+            if d:
+                return (f"{tag}: the constructor changed the caller's maximum-load Series: {d}", SEQ_MODIFIED)
+            if mx.name != fresh_mx.name:
+                self._count("argument_renamed")      # outside the property, see ASSUMPTIONS
+        tabs = tables_snapshot(b)
+        ref = {(fn, j): (tabs[fn][0][j::npts] if multi else tabs[fn][0], tabs[fn][1][j::npts] if multi else tabs[fn][1])
+               for fn in FNS for j in range(npts)}
+        for fn in FNS:
+            for j, M in enumerate(maxima):
+                if check_edges(ref[(fn, j)][0], n, M, n if fn in ("stress", "strain") else 2 * n):
+                    return None         # judged in the single / multi cases
+        done = []       # successful look-ups, replayed on a fresh object with fresh data afterwards
+        for si, st in enumerate(case["steps"]):
+            xs = [float(x) for x in st["xs"]]
+            arg = seq_arg(xs, st["container"], st.get("index"))
+            for ci, cl in enumerate(st["calls"]):
+                for j, v in (cl.get("fix") or []):
+                    xs[j] = float(v)
+                    if isinstance(arg, pd.Series):
+                        arg.iloc[j] = float(v)
+                    elif isinstance(arg, (list, np.ndarray)) and np.ndim(arg) == 1:
+                        arg[j] = float(v)
+                    else:
+                        arg = seq_arg(xs, st["container"], st.get("index"))
+                fn = cl["fn"]
+                r = call(b, fn, arg)
+                where = (f"{tag}, step {si + 1} call {ci + 1}: {fn}({st['container']} {xs!r}"
+                         f"{', index ' + (st.get('index') or {}).get('kind', 'range') if st['container'] == 'series' else ''})"
+                         f"{' [same argument object as the call before' + (', entries corrected in place' if cl.get('fix') else '') + ']' if ci else ''}")
+                self._count("seq_calls")
+                # (1) the argument is the caller's: unchanged, whether the call returned or raised
+                fresh_arg = seq_arg(xs, st["container"], st.get("index"))
+                if isinstance(arg, pd.Series) and arg.name != fresh_arg.name:
+                    self._count("argument_renamed")
+                d = arg_diff(arg, fresh_arg)
+                if d:
+                    return (f"{where} {'raised ' + r if isinstance(r, str) else 'returned'} and left the caller's argument changed: {d}",
+                            SEQ_MODIFIED)
+                # (2) the result does not depend on what the object / the argument went through before
+                ks = [klass(ref[(fn, j if multi else 0)][0], x) for j, x in enumerate(xs)]
+                if any(k is None for k in ks):
+                    self._count("seq_refused")
+                    if r != "ValueError":
+                        return (f"{where}: a load is above its range, the look-up "
+                                f"{'raised ' + r if isinstance(r, str) else 'returned ' + repr(r)} instead of ValueError", "binned-out-of-range")
+                    continue
+                want = [sign(x) * ref[(fn, j if multi else 0)][1][k] for j, (x, k) in enumerate(zip(xs, ks))]
+                if isinstance(r, str):
+                    return (f"{where}: every load inside its range, the look-up raised {r}", "binned-in-range-error")
+                if len(r) != len(want) or any(not same(a, c) for a, c in zip(r, want)):
+                    return (f"{where} returned {r!r}; upper edge of every load's class with the sign of the load gives {want!r}",
+                            "binned-sequence-value")
+                done.append((where, fn, list(xs), st["container"], st.get("index"), r))
+        # ---- the object itself: tables untouched by the look-ups
+        if tables_snapshot(b) != tabs and not all(all(same(a, c) for a, c in zip(x1, x2)) for fn in FNS for x1, x2 in zip(tables_snapshot(b)[fn], tabs[fn])):
+            return (f"{tag}: the look-up tables changed during the sequence of look-ups", "binned-object-state-changed")
+        # ---- a fresh object on fresh data gives the same
+        try:
+            bf, _lawf, _mxf = seq_objects(case)
+        except Exception:           # noqa: BLE001
+            bf = None
+        if bf is not None:
+            for where, fn, xs, cont, idx, r in done:
+                rf = call(bf, fn, seq_arg(xs, cont, idx))
+                if isinstance(rf, str) or len(rf) != len(r) or any(not same(a, c) for a, c in zip(r, rf)):
+                    return (f"{where} returned {r!r}; a fresh Binned object on fresh data gives {rf!r}", "binned-sequence-value")
+        # ---- a second object that differs in K_p only, built after the first (second law object / K_p setter)
+        if "kp2" in case:
+            kp1, kp2 = case["law"]["Kp"], case["kp2"]
+            try:
+                if case["kp_mode"] == "setter":
+                    law.K_p = kp2
+                    b2, law2, _ = seq_objects(case, law=law)
+                else:
+                    b2, law2, _ = seq_objects(case, kp=kp2)
+            except Exception as e:  # noqa: BLE001
+                self._count("seq_construction_raises_" + type(e).__name__)
+                return None
+            self._count("seq_second_object_" + case["kp_mode"])
+            lawref = make_law(dict(case["law"], Kp=kp2))
+            for fn in FNS:
+                loads, vals = lut_of(b2, fn)
+                want = [float(v) for v in np.atleast_1d(np.asarray(law_on(lawref, fn, pd.Series(loads)), dtype=float))]
+                if len(want) != len(vals) or any(not same(a, c) for a, c in zip(want, vals)):
+                    k = next((i for i in range(min(len(vals), len(want))) if not same(want[i], vals[i])), 0)
+                    return (f"{tag}: second object with K_p = {kp2!r} ({case['kp_mode']}) built after one with K_p = {kp1!r}: {fn} table "
+                            f"holds {vals[k]!r} at the edge {loads[k]!r}, the wrapped law with K_p = {kp2!r} gives {want[k]!r}"
+                            f"{' (= the FIRST object\'s table)' if vals == tabs[fn][1] else ''}", "binned-table-values")
+            now = tables_snapshot(b)
+            if not all(all(same(a, c) for a, c in zip(x1, x2)) for fn in FNS for x1, x2 in zip(now[fn], tabs[fn])):
+                return (f"{tag}: the tables of the first object (K_p = {kp1!r}) changed when the second object (K_p = {kp2!r}, "
+                        f"{case['kp_mode']}) was built", "binned-object-state-changed")
+            for where, fn, xs, cont, idx, r in done[:3]:
+                r1 = call(b, fn, seq_arg(xs, cont, idx))
+                if isinstance(r1, str) or any(not same(a, c) for a, c in zip(r, r1)):
+                    return (f"{where} returned {r!r} before and {r1!r} after a second object with K_p = {kp2!r} was built",
+                            "binned-object-state-changed")
         return None
 
     def _lookup_query(self, case, q, b, law, ref, singles, exact_law):
@@ -834,6 +1116,20 @@ class C07(Prop):
 
     # -------------------------------------------------------------- shrinking
     def shrink(self, case, still_fails):
+        if case.get("kind") == "seq":
+            cur = dict(case)
+            changed = True
+            while changed and len(cur["steps"]) > 1:
+                changed = False
+                for i in range(len(cur["steps"])):
+                    cand = dict(cur, steps=cur["steps"][:i] + cur["steps"][i + 1:])
+                    try:
+                        if still_fails(cand):
+                            cur, changed = cand, True
+                            break
+                    except Exception:     # noqa: BLE001
+                        continue
+            return cur
         cur = dict(case)
         qs = list(cur.get("queries", []))
         changed = True
